@@ -7,7 +7,7 @@ from vlib.fsm_model import Model, msg_matches
 from vlib.sim import Sim
 
 PEER_EVENTS = [
-    ['open', 'valid', 90], ['open', 'h0', 0], ['open', 'h3', 3], ['open', 'badver', 90], ['open', 'badas', 90],
+    ['open', 'valid', 90], ['open', 'h0', 0], ['open', 'h3', 3], ['open', 'badver', 90], ['open', 'badas', 90], ['open', 'badas4', 90],
     ['open', 'h1', 1], ['open', 'h2', 2], ['ka'], ['upd'], ['notif', 'ver'], ['notif', 'other'], ['rr'],
     ['bad_marker'], ['bad_len'], ['bad_type'], ['close'],
 ]
@@ -20,6 +20,8 @@ def encode_event(sim, ev, n=0):
         fl, hold = ev[1], ev[2]
         if fl == 'badver':
             return ss.peer_open(sim, hold=hold, version=3)
+        if fl == 'badas4':     # the My-AS field names the configured peer AS, the 4-octet-AS capability another one (RFC 6793: the capability counts)
+            return ss.peer_open(sim, hold=hold, asn=sim.config['remote_as'] + 97, my_as=sim.config['remote_as'])
         if fl == 'badas':
             return ss.peer_open(sim, hold=hold, asn=sim.config['remote_as'] + 1)
         return ss.peer_open(sim, hold=hold)
